@@ -1,7 +1,10 @@
 //! This module contains miscellaneous small data-types that are used throughout
 //! the virtual machine.
 
+#[cfg(not(smlxl_storage_layout_extractor_verif))]
 use std::collections::HashMap;
+#[cfg(smlxl_storage_layout_extractor_verif)]
+use crate::verif::collections::HashMap;
 
 use crate::{
     disassembly::ExecutionThread,
